@@ -68,24 +68,24 @@ template<class Sk> static void eps_report(const char* fam, const char* group, in
   Ev("Trial").str("fam", fam).str("kind", "eps").str("group", group).i("k", k).i("n", n).i("sn", (long long)s.get_n())
     .i("eps", ppm(s.get_normalized_rank_error(false))).i("epspmf", ppm(s.get_normalized_rank_error(true))).il("errs", errs).i("pmferr", ppm(worst)).emit();
 }
-static void req_trial(const int* ks, bool hra, long n, int shape, vt::Rng& g) {   // shape 0: one sketch, 1: 8-way merge, 2: depth-2 tree
+static void req_trial(const int* ks, bool hra, long n, int shape, vt::Rng& g, const char* group = nullptr) {   // shape 0: one sketch, 1: 8-way merge, 2: depth-2 tree
   typedef req_sketch<float> R;
   std::vector<float> v = permutation(n, g);
   const int k = ks[0];
   R s = shape == 2 ? build_tree<R>(v, ks, [=](int kk) { return R((uint16_t)kk, hra); })
                    : build<R>(v, shape == 1, [=]() { return R((uint16_t)k, hra); });
-  std::vector<long long> tr, lb[3], ub[3];
+  std::vector<long long> tr, es, lb[3], ub[3];
   for (int j = 0; j < 100; j++) {
     // query points crowd the accurate end: true ranks 1 - 2^-(j/6) (HRA) or 2^-(j/6) (LRA) and evenly spaced ones
     double r = j < 60 ? std::pow(2.0, -(double)j / 6.0) : ((double)(j - 60) + 0.5) / 40.0;
     if (hra && j < 60) r = 1.0 - r;
     long q = std::min(n - 1, std::max(0L, (long)(r * (double)n)));
     double truth = (double)(q + 1) / (double)n, est = s.get_rank((float)q, true);
-    tr.push_back(ppm(truth));
+    tr.push_back(ppm(truth)); es.push_back(ppm(est));
     for (int sd = 1; sd <= 3; sd++) { lb[sd - 1].push_back(ppm(s.get_rank_lower_bound(est, (uint8_t)sd))); ub[sd - 1].push_back(ppm(s.get_rank_upper_bound(est, (uint8_t)sd))); }
   }
-  Ev("Trial").str("fam", "req").str("kind", "bounds").str("group", shape == 2 ? "tree" : "flat").i("k", k).b("hra", hra).i("n", n).i("sn", (long long)s.get_n())
-    .il("truth", tr).il("lb1", lb[0]).il("ub1", ub[0]).il("lb2", lb[1]).il("ub2", ub[1]).il("lb3", lb[2]).il("ub3", ub[2]).emit();
+  Ev("Trial").str("fam", "req").str("kind", "bounds").str("group", group ? group : (shape == 2 ? "tree" : "flat")).i("k", k).b("hra", hra).i("n", n).i("sn", (long long)s.get_n())
+    .il("truth", tr).il("est", es).il("lb1", lb[0]).il("ub1", ub[0]).il("lb2", lb[1]).il("ub2", ub[1]).il("lb3", lb[2]).il("ub3", ub[2]).emit();
 }
 
 // unbiasedness of the classic down-sampling merge (its offset comes from random_utils::rand, not from the coin): both sketches
@@ -143,6 +143,13 @@ int main(int argc, char** argv) {
       if (tree) req_trial(REQ_T[(t / 3) % 3], (t / 6) % 2 == 0, n, 2, g);
       else req_trial(flat, (t / 4) % 2 == 0, n, merged ? 1 : 0, g);
     }
+  }
+  if (fam == 2) {
+    // DIRECTED group for the known finding C08:req-mixed-k-merge-bounds: the small k BELOW the top of a depth-2 tree - the final sketch
+    // keeps its own (large) k and publishes bounds for it although most of its data was compacted with the small k
+    static const int MIX[3][3] = {{24, 24, 4}, {24, 4, 24}, {50, 24, 4}};
+    const long mt = trials >= 96 ? 24 : 12;
+    for (long t = 0; t < mt; t++) req_trial(MIX[t % 3], (t / 3) % 2 == 0, n, 2, g, "req-mixed-k");
   }
   Ev("Verdict").i("trials", trials).emit();
   vt::close_out();
